@@ -67,7 +67,7 @@ def atomJson (a : Atom Rat) : Json :=
 def unitJson (u : PUnit Rat) : List (String × Json) :=
   [("f", jRat u.factor), ("o", jRat u.offset), ("p", jInts u.powers),
    ("names", jArr (fun kv : Atom Rat × Pw =>
-      Json.arr #[atomJson kv.1, jInt kv.2.v, jBool kv.2.isF]) u.names)]
+      Json.arr #[atomJson kv.1, jInt kv.2.v]) u.names)]
 
 def getUnitArg? (j : Json) : Option (Option String) :=
   match j with
@@ -130,15 +130,16 @@ def step (lib : Lib) (j : Json) : Option (Json × Lib × Bool) := do
     let (ru, _) := findUnit ratRoot lib e
     let js := match r, ru with
       | .error x, _ => errJson x
-      | .ok none, _ => jObj [("ok", jBool true), ("toks", Json.null)]
-      | .ok (some ts), .ok u =>
+      | .ok .unity, _ => jObj [("ok", jBool true), ("toks", Json.null)]
+      | .ok .same, _ => jObj [("ok", jBool true), ("same", jBool true)]
+      | .ok (.toks ts), .ok u =>
         let raw := nameToks u.names
         -- runtime check of the link  parseToks (nameToks n) = nameExpr n
         let link := decide (parseToks raw = some (nameExpr u.names))
         let back := evalE ratRoot lib'.baseNames lib'.table (nameExpr u.names)
         jObj [("ok", jBool true), ("toks", jArr tokJson ts), ("link", jBool link),
               ("back", valJson back)]
-      | .ok (some ts), .error _ => jObj [("ok", jBool true), ("toks", jArr tokJson ts)]
+      | .ok (.toks ts), .error _ => jObj [("ok", jBool true), ("toks", jArr tokJson ts)]
     pure (js, lib', isAbst r)
   | _, _ => none
 
